@@ -109,6 +109,9 @@ pub enum Cmp {
 /// those runs; if they differ the operation is observable and not reverting is a violation.
 pub fn compare_case(case: &Case, k: usize, obs: &Observation) -> Cmp {
     let expected = &case.expected[k];
+    if expected.order_dependent {
+        return Cmp::Inconclusive("the index expression of an element read modifies the indexed variable: evaluation order not specified".into());
+    }
     let arith = matches!(expected.result, Err(RevertKind::Overflow) | Err(RevertKind::DivZero));
     if !arith || obs.outcome.reverted() || matches!(obs.outcome, Outcome::VmError(_)) {
         return compare(expected, obs);
